@@ -144,10 +144,10 @@ def mk(R, w, var=None):
         return Poly.var(var)
     if R == "Expectation":
         k = 1 if var is None else var
-        return Expectation(Fraction(w), Fraction(w) * k)
+        return Expectation(float(w), float(w) * k)
     if R == "Entropy":
         k = 1 if var is None else var
-        return Entropy(Fraction(w), Fraction(w) * k)
+        return Entropy(float(w), float(w) * k)
     raise KeyError(R)
 
 
